@@ -12,13 +12,14 @@ import (
 // relation to the output of the base program (C11 C12 C15: byte equality;
 // C15 on COFF: equality except symbol names and string table).
 type VariantCase struct {
-	Prop     string     `json:"prop"`
-	Base     []byte     `json:"base"`
-	Variants [][]byte   `json:"variants"`
-	Labels   []string   `json:"labels"` // what each variant does
-	Coff     bool       `json:"coff,omitempty"`
-	Names    [][]string `json:"names,omitempty"` // C15 COFF: expected symbol names per variant (base first)
-	Cell_    string     `json:"cell"`
+	Prop     string              `json:"prop"`
+	Base     []byte              `json:"base"`
+	Variants [][]byte            `json:"variants"`
+	Labels   []string            `json:"labels"` // what each variant does
+	Coff     bool                `json:"coff,omitempty"`
+	Names    [][]string          `json:"names,omitempty"` // C15 COFF: expected symbol names per variant (base first)
+	Maps     []map[string]string `json:"maps,omitempty"`  // C15 COFF: the renaming of each variant; the external symbols must read back as the renamed base symbols, in the same order
+	Cell_    string              `json:"cell"`
 }
 
 func (c *VariantCase) Kind() string { return "variant" }
@@ -62,6 +63,18 @@ func (c *VariantCase) Judge(rs []Res, env *Env) Outcome {
 		if c.Coff {
 			if d := coffDiffExceptNames(base, r.Out); d != "" {
 				return fail("coff-differs", d)
+			}
+			if c.Maps != nil {
+				var want []string
+				for _, n := range coffExternalNames(base) {
+					if m, ok := c.Maps[i][n]; ok {
+						n = m
+					}
+					want = append(want, n)
+				}
+				if got := coffExternalNames(r.Out); fmt.Sprint(got) != fmt.Sprint(want) {
+					return fail("coff-names", fmt.Sprintf("the external symbols read back as %v, the renamed symbols of the base object are %v", got, want))
+				}
 			}
 			if c.Names != nil {
 				got := coffExternalNames(r.Out)
@@ -134,6 +147,9 @@ func adversarialNames(r *Rand, n int, reserved []string) []string {
 		// lower-case spellings of registers, mnemonics and keywords, and names of registers gosk does not have: ordinary identifiers
 		{"ax", "si", "eax", "cr0", "st0", "mov", "db", "equ", "byte", "dword", "short", "org", "resb"},
 		{"kmax", "kbd", "k1", "mm0", "xmm1", "zmm0", "bnd", "ymmword", "r8", "rax", "dr7x"},
+		// names beyond the 8 bytes of a COFF name field that contain one another (prefix, infix, suffix), longer one first or second
+		{"long_name_alpha", "long_name_alph", "long_name_alpha2", "ong_name_alpha", "long_name", "g_name_al", "long_name_", "xlong_name_alpha"},
+		{"_draw_line_fast", "_draw_line", "w_line_fast", "aw_line_fa", "_draw_line_faster", "draw_line_"},
 	}
 	fam := append([]string{}, fams[r.Intn(len(fams))]...)
 	Shuffle(r, fam)
@@ -213,6 +229,9 @@ func genC15(r *Rand, reserved []string, nvar int, coff bool) *VariantCase {
 		}
 		c.Variants = append(c.Variants, []byte(renameIdents(src, m)))
 		c.Labels = append(c.Labels, kind+": "+fmt.Sprint(m))
+		if coff {
+			c.Maps = append(c.Maps, m)
+		}
 	}
 	c.Cell_ = fmt.Sprintf("m%d org=%d coff=%v ids=%d", mode, org, coff, len(ids)/3)
 	return c
